@@ -146,6 +146,7 @@ func GenUniverse(rt *rapid.T, maxDefs int) *am.Universe {
 	n := rapid.IntRange(0, maxDefs).Draw(rt, "ndefs")
 	u := &am.Universe{}
 	names := map[string]bool{}
+	adv := NewAdvNames(rt, "tadv")
 	for i := 0; i < n; i++ {
 		var name string
 		switch rapid.IntRange(0, 5).Draw(rt, "nameKind") {
@@ -155,6 +156,8 @@ func GenUniverse(rt *rapid.T, maxDefs int) *am.Universe {
 			name = fmt.Sprintf("T%d", i)
 		case 2:
 			name = fmt.Sprintf("class.C %d", i)
+		case 3, 4:
+			name = adv.Draw(rt, "tname")
 		default:
 			name = fmt.Sprintf("t%d", i)
 		}
@@ -288,4 +291,37 @@ func Mutate(rt *rapid.T, u *am.Universe, t *am.Type) *am.Type {
 		return am.TMMX
 	}
 	return &c
+}
+
+// AdvNames draws names from families built to collide under a careless natural-order comparison:
+// numbers that differ only in zero padding followed by different suffixes (equal total length
+// included), digit runs at and beyond 2^64 that differ only in their last digit, several number chunks
+// per name. Base and leading number are fixed per module so that the names of one module are close
+// to each other. Every name starts with a letter, so none is a numeric ID.
+type AdvNames struct {
+	base string
+	k    string
+}
+
+func NewAdvNames(rt *rapid.T, label string) *AdvNames {
+	return &AdvNames{
+		base: rapid.SampledFrom([]string{"r", "rev.", "x", "a.b"}).Draw(rt, label+"_base"),
+		k:    fmt.Sprint(rapid.IntRange(1, 9).Draw(rt, label+"_k")),
+	}
+}
+
+func (a *AdvNames) Draw(rt *rapid.T, label string) string {
+	base, ks := a.base, a.k
+	switch rapid.IntRange(0, 5).Draw(rt, label+"_family") {
+	case 0, 1, 2: // zero padding against suffix
+		return base + rapid.SampledFrom([]string{"0" + ks, ks + "b", "00" + ks, ks + "bc", ks, "0" + ks + "z", ks + "a" + ks, "0" + ks + "a0" + ks, ks + "a0" + ks, "0" + ks + "a" + ks}).Draw(rt, label+"_form")
+	case 3: // beyond 64 bits
+		run := rapid.SampledFrom([]string{"2026092409300000000", "1844674407370955161", "9999999999999999999"}).Draw(rt, label+"_run")
+		return base + run + fmt.Sprint(rapid.IntRange(0, 9).Draw(rt, label+"_last")) + rapid.SampledFrom([]string{"", "", "x"}).Draw(rt, label+"_tail")
+	case 4: // several chunks
+		j := rapid.IntRange(1, 3).Draw(rt, label+"_j")
+		return fmt.Sprintf("%s%s.%s%d", base, rapid.SampledFrom([]string{ks, "0" + ks}).Draw(rt, label+"_p1"), rapid.SampledFrom([]string{"", "0", "00"}).Draw(rt, label+"_p2"), j)
+	default: // case and digit boundaries
+		return rapid.SampledFrom([]string{"R", "r", "X"}).Draw(rt, label+"_case") + ks + rapid.SampledFrom([]string{"", "0", "_", " "}).Draw(rt, label+"_sep") + ks
+	}
 }
